@@ -156,6 +156,14 @@ var carriers = []carrier{
 		_, err := ociregistry.All(r.Tags(ctx, repo, ""))
 		return noErr(err)
 	}},
+	{Name: "RepositoriesLater", Method: "GET", Point: "RepositoriesLater", run: func(ctx context.Context, r ociregistry.Interface, _ string) error {
+		_, err := ociregistry.All(r.Repositories(ctx, ""))
+		return noErr(err)
+	}},
+	{Name: "TagsLater", Method: "GET", Point: "TagsLater", run: func(ctx context.Context, r ociregistry.Interface, _ string) error {
+		_, err := ociregistry.All(r.Tags(ctx, repo, ""))
+		return noErr(err)
+	}},
 	{Name: "Referrers", Method: "GET", Point: "Referrers", run: func(ctx context.Context, r ociregistry.Interface, _ string) error {
 		_, err := ociregistry.All(r.Referrers(ctx, repo, blobDigest, ""))
 		return noErr(err)
